@@ -73,6 +73,7 @@ var c12Both = func() []bothXf {
 		out = append(out, bothXf{name: fmt.Sprintf("move(%g,%g)", d[0], d[1]), t: ident, move: &d})
 	}
 	out = append(out, bothXf{name: "far-fine(2^-12 at 2^19)", t: farFineXf})
+	out = append(out, bothXf{name: "scale(2^-300)", t: Xf{Scale: 0x1p-301}})
 	for _, s := range []float64{0.125, 2, 1024, 1.0 / (1 << 29), 1.0 / (1 << 40)} {
 		out = append(out, bothXf{name: fmt.Sprintf("scale(%g)", s), t: Xf{Scale: 0.5 * s}})
 	}
@@ -282,6 +283,15 @@ func runC12(r *rt.Run) {
 	run(cr, cpt, false)
 	run(ch, chp, false)
 	run(cp4, cq4, false)
+	// lines that end where they started x every line of <= 3 positions (among
+	// them the ones that run through the closing position, in both directions)
+	maxLoop := 3
+	if r.Thorough() {
+		maxLoop = 4
+	}
+	loops := poolClosedLines(3, -1, maxLoop)
+	r.Bounds["closed_lines"] = len(loops)
+	run(conv(loops), cl, false)
 	// triangles with long slanted edges x shapes touching the hypotenuse (translation / Move / reflection / direction)
 	_, sp := slantPairs()
 	r.Bounds["slanted_triangle_pairs"] = len(sp)
